@@ -463,7 +463,175 @@ pub fn random_case(r: &mut Rng, max_len: usize) -> Case {
   Case { mode, src, h }
 }
 
+/// Subscribers that join a share from inside another subscriber's callback: while the share is
+/// connecting to a synchronous cold source (the emission happens inside the connecting
+/// subscription), or during an emission of a hot source. Nobody re-enters the *source*; the share
+/// is simply subscribed again, which is what concat_all / merge_all do by themselves when an inner
+/// observable that is a share() completes and the next inner is a clone of it.
+/// Expected: no panic, no self-deadlock; the first subscriber sees everything; a subscriber that
+/// joined during item i sees exactly the items after i; the source is subscribed once.
+fn reentrant_join_case(threads: bool, src: u8, join_at: usize, joiners: usize) -> Result<(Vec<Vec<N>>, Vec<Vec<N>>, usize, usize), String> {
+  use std::rc::Rc;
+  catch(|| {
+    clear_local_cbs();
+    let log = Log::new();
+    let mut hot_l = Subject::<'static, V, E>::default();
+    let mut hot_t = SubjectThreads::<V, E>::default();
+    let lc = log.clone();
+    let items = vec![V::I(1), V::I(2), V::I(3)];
+    let cold_items = items.clone();
+    // src: 0 = cold, emits 1,2,3 at subscription and stays open; 1 = cold, emits 1,2,3 and completes; 2 = hot
+    let completes = src == 1;
+    let local: rxrust::ops::box_it::BoxOp<'static, V, E> = match src {
+      2 => hot_l.clone().box_it(),
+      _ => {
+        let lc = lc.clone();
+        defer(move || {
+          lc.mark(SUBCNT, "source_subscribed", 0);
+          let its = cold_items.clone();
+          create(move |mut s: Subscriber<_>| {
+            for v in its.iter() {
+              s.next(v.clone());
+            }
+            if completes {
+              s.complete();
+            }
+          })
+        })
+        .box_it()
+      }
+    };
+    let lc2 = log.clone();
+    let cold_items_t = items.clone();
+    let thr: rxrust::ops::box_it::BoxOpThreads<V, E> = match src {
+      2 => hot_t.clone().box_it(),
+      _ => defer(move || {
+        lc2.mark(SUBCNT, "source_subscribed", 0);
+        let its = cold_items_t.clone();
+        create(move |mut s: SubscriberThreads<_>| {
+          for v in its.iter() {
+            s.next(v.clone());
+          }
+          if completes {
+            s.complete();
+          }
+        })
+      })
+      .box_it(),
+    };
+    let share_l = local.share();
+    let share_t = thr.share_threads();
+    // subscriber 1 subscribes `joiners` more probes (2, 3) when its item number `join_at`
+    // arrives (join_at == 3: when its completion arrives)
+    let seen = Rc::new(std::cell::Cell::new(0usize));
+    {
+      let (log, share_l, share_t, seen) = (log.clone(), share_l.clone(), share_t.clone(), seen.clone());
+      set_local_cb(
+        1,
+        Rc::new(move |n: &N| {
+          let now = seen.get();
+          seen.set(now + 1);
+          let fire = match n {
+            N::Next(_) => now == join_at,
+            _ => join_at == 3,
+          };
+          if fire {
+            for j in 0..joiners {
+              let probe = Probe::new(2 + j as u32, &log);
+              log.mark(0, "joined", 2 + j as i64);
+              if threads {
+                std::mem::forget(share_t.clone().actual_subscribe(probe));
+              } else {
+                std::mem::forget(share_l.clone().actual_subscribe(probe));
+              }
+            }
+          }
+        }),
+      );
+    }
+    if threads {
+      std::mem::forget(share_t.clone().actual_subscribe(Probe::new(1, &log)));
+    } else {
+      std::mem::forget(share_l.clone().actual_subscribe(Probe::new(1, &log)));
+    }
+    if src == 2 {
+      for v in items.iter() {
+        if threads {
+          hot_t.next(v.clone());
+        } else {
+          hot_l.next(v.clone());
+        }
+      }
+      // a hot source also completes in the `join on completion` cases
+      if join_at == 3 {
+        if threads {
+          hot_t.clone().complete();
+        } else {
+          hot_l.clone().complete();
+        }
+      }
+    }
+    clear_local_cbs();
+    let got: Vec<Vec<N>> = (1..=3u32).map(|id| log.notes(id)).collect();
+    // model
+    let mut full: Vec<N> = items.iter().cloned().map(N::Next).collect();
+    if completes || (src == 2 && join_at == 3) {
+      full.push(N::Complete);
+    }
+    let joined = seen.get() > join_at.min(full.len());
+    let late: Vec<N> = if joined && join_at < 3 { full[join_at + 1..].to_vec() } else { vec![] };
+    let mut expected = vec![full.clone(), vec![], vec![]];
+    for j in 0..joiners {
+      expected[1 + j] = late.clone();
+    }
+    let n_src = log.marks(SUBCNT, "source_subscribed").len();
+    Ok::<_, String>((got, expected, n_src, log.len()))
+  })
+  .and_then(|r| r)
+}
+
 pub fn run(cfg: &Cfg, rep: &mut Report) {
+  if cfg.shard == 0 && cfg.only_case.as_deref().map_or(true, |c| c.starts_with("rejoin:")) {
+    for threads in [false, true] {
+      for src in 0..3u8 {
+        for join_at in 0..4usize {
+          for joiners in 1..3usize {
+            let id = format!("rejoin:{}:{}:{}:{}", threads, src, join_at, joiners);
+            if !cfg.wants(&id) {
+              continue;
+            }
+            rep.evaluations += 1;
+            rep.count("joins_from_inside_a_subscriber_callback", 1);
+            let locus = format!("{}[join-in-callback]", if threads { "share_threads" } else { "share" });
+            let src_name = ["cold, stays open", "cold, completes", "hot"][src as usize];
+            match reentrant_join_case(threads, src, join_at, joiners) {
+              Err(p) => {
+                let kind = if p.starts_with(crate::conc::SELF_DEADLOCK) { "deadlock" } else { "panic" };
+                rep.violation(kind, &locus, &id, json!({"source": src_name, "join_at_item": join_at, "joiners": joiners, "what": p}));
+              }
+              Ok((got, expected, n_src, events)) => {
+                rep.events += events as u64;
+                rep.nontrivial.insert(hash64(&(threads, src, join_at, joiners)));
+                if src != 2 && n_src != 1 {
+                  rep.violation("source_subscribed_more_than_once", &locus, &id, json!({"source_subscriptions": n_src}));
+                } else if got[0] != expected[0] {
+                  rep.violation("wrong_delivery", &locus, &id, json!({"who": "the first subscriber", "observed": jn(&got[0]), "expected": jn(&expected[0])}));
+                } else if join_at < 3 {
+                  // who joins on the completion of the source is owed nothing in particular
+                  for j in 0..joiners {
+                    if got[1 + j] != expected[1 + j] {
+                      rep.violation("wrong_delivery", &locus, &id, json!({"who": format!("subscriber {} joined during item {}", 2 + j, join_at + 1), "observed": jn(&got[1 + j]), "expected": jn(&expected[1 + j])}));
+                      break;
+                    }
+                  }
+                }
+              }
+            }
+          }
+        }
+      }
+    }
+  }
   let total = cfg.n(600_000, 20_000_000);
   let max_len = cfg.n(10, 18);
   let mut rng = Rng::new(cfg.seed ^ 0xC11);
